@@ -55,8 +55,13 @@ def C01(tier, seed):
 
 
 def C03(tier, seed):
-    return hist_plan(["C03"], tier, seed, tokens=("spl", "t22fee"), must={"swap": 50, "swap_v2": 50},
-                     explanation="SwapBounds on balance deltas of every successful swap; toy instance: SwapBounds as invariant over all interleavings")
+    p = hist_plan(["C03"], tier, seed, tokens=("spl", "t22fee"), must={"swap": 50, "swap_v2": 50, "two_hop_swap": 10, "two_hop_swap_v2": 10},
+                  explanation="SwapBounds on balance deltas of every successful swap; two-hop swaps: per-leg price direction / bounds / limit, amount used in full unless the specified "
+                              "leg's limit was reached, thresholds on realised amounts; toy instance: SwapBounds as invariant over all interleavings")
+    shards, worlds, attempts = (2, 3, 120) if tier == "quick" else (8, 12, 400)
+    for s_ in range(shards):
+        p["drivers"].append({"name": f"twohop_{s_}", "args": ["twohop", "--seed", str(seed * 100 + 50 + s_), "--worlds", str(worlds), "--attempts", str(attempts)]})
+    return p
 
 
 def C05(tier, seed):
